@@ -17,55 +17,138 @@ Require Import ListN Result Bytes Utf8 Utf8S F32 Prog Codec PoseRead ProgLemmas 
 Import ListNotations.
 Open Scope N_scope.
 
+(* ---------- the window a set of read arguments denotes ----------
+   [window_of fps F a] (proofs/C04_V01.v): start_frame / end_frame as given, start_time / end_time (milliseconds) as
+   floor / ceil of t / 1000 * fps in binary64 (Codec.time_to_frame, the rule of the v0.2 reader), a start below 0 is 0,
+   an end beyond the F frames is F; [Err] when a frame and a time bound are given for the same end.
+   [window00 c a] / [window01 c a] instantiate it with the file's frame rate and frame count;
+   [valid_window F s0 e0]: s0 = 0 or s0 < F, and s0 <= e0. *)
+
 (* ---------- v0.0: every frame's FIRST person, zeros (all missing) for frames without people ---------- *)
-(* from a byte string, whatever follows the file ([x]), whatever the header memo holds, whatever window arguments are
-   passed (they are ignored by this decoder - see C04_v00_window_refuted below) *)
+(* a windowed read - frame bounds, time bounds or one of each - returns frames [s0, e0) of that view; from a byte string,
+   whatever follows the file ([x]), whatever the header memo holds *)
+Theorem C04_v00_decodes_window_bytes :
+  forall c m a x s0 e0, wf00 c -> MemoOK m -> window00 c a = Ok (s0, e0) -> valid_window (frames00 c) s0 e0 ->
+  fst (read_bytes c04_legacy m (spec00 c ++ x) a) = Ok (v00_window_view c s0 e0).
+Proof. exact v00_read_bytes_window. Qed.
+Print Assumptions C04_v00_decodes_window_bytes.
+(* from a seekable stream (any prefetch relation: the stream reader simulates the byte reader on read/advance programs) *)
+Theorem C04_v00_decodes_window_stream :
+  forall c m a x s0 e0, wf00 c -> MemoOK m -> window00 c a = Ok (s0, e0) -> valid_window (frames00 c) s0 e0 ->
+  fst (fst (read_stream4 c04_legacy m (spec00 c ++ x) a)) = Ok (v00_window_view c s0 e0).
+Proof. exact v00_read_stream_window. Qed.
+Print Assumptions C04_v00_decodes_window_stream.
+(* no window argument: every frame *)
 Theorem C04_v00_decodes_bytes :
-  forall c m a x, wf00 c -> MemoOK m ->
+  forall c m a x, wf00 c -> MemoOK m -> any_arg a = false ->
   fst (read_bytes c04_legacy m (spec00 c ++ x) a) = Ok (first_person_view c).
 Proof. exact v00_read_bytes. Qed.
 Print Assumptions C04_v00_decodes_bytes.
-(* from a seekable stream (any prefetch relation: the stream reader simulates the byte reader on read/advance programs) *)
 Theorem C04_v00_decodes_stream :
-  forall c m a x, wf00 c -> MemoOK m ->
+  forall c m a x, wf00 c -> MemoOK m -> any_arg a = false ->
   fst (fst (read_stream4 c04_legacy m (spec00 c ++ x) a)) = Ok (first_person_view c).
 Proof. exact v00_read_stream. Qed.
 Print Assumptions C04_v00_decodes_stream.
+(* the whole view is its window [0, frames) *)
+Theorem C04_v00_window_full : forall c, wf00 c -> v00_window_view c 0 (frames00 c) = first_person_view c.
+Proof. exact v00_window_full. Qed.
+Print Assumptions C04_v00_window_full.
 (* the decoder's body alone, as a round trip of the reference encoder's body *)
 Theorem C04_v00_body_roundtrip :
   forall c, wf00 c ->
-  RTp (read_v0_0 (k0_header c)) (spec_body00 c) (p_body (first_person_view c)).
+  RTp (read_v0_0 (k0_header c) None None None None) (spec_body00 c) (p_body (first_person_view c)).
 Proof. exact v00_body_rt. Qed.
 Print Assumptions C04_v00_body_roundtrip.
 (* in particular a file that declares zero frames decodes to the empty pose of shape (0, 1, points, dims) (fix F4v) *)
 Theorem C04_v00_zero_frames :
-  forall c m a, wf00 c -> k0_frames c = [] -> MemoOK m ->
+  forall c m a, wf00 c -> k0_frames c = [] -> MemoOK m -> any_arg a = false ->
   fst (read_bytes c04_legacy m (spec00 c) a) = Ok (first_person_view c) /\
   b_shape (p_body (first_person_view c)) = [0; 1; spec_points (k0_header c); spec_dims (k0_header c)] /\
   b_data (p_body (first_person_view c)) = [] /\ b_conf (p_body (first_person_view c)) = [] /\
   b_mask (p_body (first_person_view c)) = [].
 Proof. exact v00_zero_frames. Qed.
 Print Assumptions C04_v00_zero_frames.
+(* a start at or beyond the last frame - given as a frame or as a time - is refused (ValueError), bytes and stream *)
+Theorem C04_v00_start_beyond_bytes :
+  forall c m a x s0 e0, wf00 c -> MemoOK m -> window00 c a = Ok (s0, e0) -> (0 < s0)%Z -> (frames00 c <= s0)%Z ->
+  fst (read_bytes c04_legacy m (spec00 c ++ x) a) = Err Value.
+Proof. exact v00_beyond_bytes. Qed.
+Print Assumptions C04_v00_start_beyond_bytes.
+Theorem C04_v00_start_beyond_stream :
+  forall c m a x s0 e0, wf00 c -> MemoOK m -> window00 c a = Ok (s0, e0) -> (0 < s0)%Z -> (frames00 c <= s0)%Z ->
+  fst (fst (read_stream4 c04_legacy m (spec00 c ++ x) a)) = Err Value.
+Proof. exact v00_beyond_stream. Qed.
+Print Assumptions C04_v00_start_beyond_stream.
+(* a frame and a time bound for the same end are refused (ValueError), bytes and stream *)
+Theorem C04_v00_conflict_bytes :
+  forall c m a x, wf00 c -> MemoOK m -> conflict (a_sf a) (a_st a) || conflict (a_ef a) (a_et a) = true ->
+  fst (read_bytes c04_legacy m (spec00 c ++ x) a) = Err Value.
+Proof. exact v00_conflict_bytes. Qed.
+Print Assumptions C04_v00_conflict_bytes.
+Theorem C04_v00_conflict_stream :
+  forall c m a x, wf00 c -> MemoOK m -> conflict (a_sf a) (a_st a) || conflict (a_ef a) (a_et a) = true ->
+  fst (fst (read_stream4 c04_legacy m (spec00 c ++ x) a)) = Err Value.
+Proof. exact v00_conflict_stream. Qed.
+Print Assumptions C04_v00_conflict_stream.
 
 (* ---------- v0.1: the frame count is (bytes remaining) / (people * points * (dims + 1) * 4), not the 16-bit field ---------- *)
-(* any number of frames below 2^53 (in particular more than 65535); frame windows [start, min(end, frames)) *)
+(* any number of frames below 2^53 (in particular more than 65535); a windowed read - frame bounds, time bounds or one of
+   each - returns frames [s0, e0) *)
 Theorem C04_v01_decodes_bytes :
-  forall c m a, wf01 c -> MemoOK m -> valid_window01 c a ->
-  fst (read_bytes c04_legacy m (spec01 c) a) = Ok (v01_expected c a).
+  forall c m a s0 e0, wf01 c -> MemoOK m -> window01 c a = Ok (s0, e0) -> valid_window (frames01 c) s0 e0 ->
+  fst (read_bytes c04_legacy m (spec01 c) a) = Ok (v01_view c (Z.to_N s0) (Z.to_N e0)).
 Proof. exact v01_read_bytes. Qed.
 Print Assumptions C04_v01_decodes_bytes.
 Theorem C04_v01_decodes_stream :
-  forall c m a, wf01 c -> MemoOK m -> valid_window01 c a ->
-  fst (fst (read_stream4 c04_legacy m (spec01 c) a)) = Ok (v01_expected c a).
+  forall c m a s0 e0, wf01 c -> MemoOK m -> window01 c a = Ok (s0, e0) -> valid_window (frames01 c) s0 e0 ->
+  fst (fst (read_stream4 c04_legacy m (spec01 c) a)) = Ok (v01_view c (Z.to_N s0) (Z.to_N e0)).
 Proof. exact v01_read_stream. Qed.
 Print Assumptions C04_v01_decodes_stream.
-(* no frame bound: the whole recording *)
+(* frame bounds only: frames [start, min(end, frames)) *)
+Theorem C04_v01_decodes_frames :
+  forall c m a, wf01 c -> MemoOK m -> a_st a = None -> a_et a = None ->
+  valid_window (frames01 c) (start0 (a_sf a)) (end0 (a_ef a) (frames01 c)) ->
+  fst (read_bytes c04_legacy m (spec01 c) a) = Ok (v01_expected c a) /\
+  fst (fst (read_stream4 c04_legacy m (spec01 c) a)) = Ok (v01_expected c a).
+Proof. exact v01_read_frames. Qed.
+Print Assumptions C04_v01_decodes_frames.
+(* no bound: the whole recording *)
 Theorem C04_v01_decodes_full :
-  forall c m a, wf01 c -> MemoOK m -> a_sf a = None -> a_ef a = None ->
+  forall c m a, wf01 c -> MemoOK m -> any_arg a = false ->
   fst (read_bytes c04_legacy m (spec01 c) a) = Ok (v01_full c) /\
   fst (fst (read_stream4 c04_legacy m (spec01 c) a)) = Ok (v01_full c).
 Proof. exact v01_read_full. Qed.
 Print Assumptions C04_v01_decodes_full.
+(* a start at or beyond the last frame - given as a frame or as a time - is refused (ValueError), bytes and stream *)
+Theorem C04_v01_start_beyond_bytes :
+  forall c m a s0 e0, wf01 c -> MemoOK m -> window01 c a = Ok (s0, e0) -> (0 < s0)%Z -> (frames01 c <= s0)%Z ->
+  fst (read_bytes c04_legacy m (spec01 c) a) = Err Value.
+Proof. exact v01_beyond_bytes. Qed.
+Print Assumptions C04_v01_start_beyond_bytes.
+Theorem C04_v01_start_beyond_stream :
+  forall c m a s0 e0, wf01 c -> MemoOK m -> window01 c a = Ok (s0, e0) -> (0 < s0)%Z -> (frames01 c <= s0)%Z ->
+  fst (fst (read_stream4 c04_legacy m (spec01 c) a)) = Err Value.
+Proof. exact v01_beyond_stream. Qed.
+Print Assumptions C04_v01_start_beyond_stream.
+(* a frame and a time bound for the same end are refused (ValueError), bytes and stream *)
+Theorem C04_v01_conflict_bytes :
+  forall c m a, wf01 c -> MemoOK m -> conflict (a_sf a) (a_st a) || conflict (a_ef a) (a_et a) = true ->
+  fst (read_bytes c04_legacy m (spec01 c) a) = Err Value.
+Proof. exact v01_conflict_bytes. Qed.
+Print Assumptions C04_v01_conflict_bytes.
+Theorem C04_v01_conflict_stream :
+  forall c m a, wf01 c -> MemoOK m -> conflict (a_sf a) (a_st a) || conflict (a_ef a) (a_et a) = true ->
+  fst (fst (read_stream4 c04_legacy m (spec01 c) a)) = Err Value.
+Proof. exact v01_conflict_stream. Qed.
+Print Assumptions C04_v01_conflict_stream.
+(* frame bounds alone denote the clipped pair; no argument denotes the whole file *)
+Theorem C04_window_of_frames :
+  forall fps F a, a_st a = None -> a_et a = None -> window_of fps F a = Ok (start0 (a_sf a), end0 (a_ef a) F).
+Proof. exact window_of_frames. Qed.
+Print Assumptions C04_window_of_frames.
+Theorem C04_window_of_no_args : forall fps F a, any_arg a = false -> window_of fps F a = Ok (0%Z, F).
+Proof. exact no_args_window. Qed.
+Print Assumptions C04_window_of_no_args.
 (* CPython's int(a / b) on exact multiples: the float quotient is exact below 2^53 (binary64 division, SpecFloat) *)
 Theorem C04_py_int_truediv_exact :
   forall F b : Z, (0 <= F < 2 ^ 53)%Z -> (0 < b)%Z -> py_int_truediv (F * b) b = Ok F.
@@ -74,18 +157,25 @@ Print Assumptions C04_py_int_truediv_exact.
 
 (* ---------- rewriting the decoded pose as v0.2 ---------- *)
 (* Pose.write accepts it and the written file reads back to the same header (version 0.2), fps, values, confidences
-   and missing pattern ([rewrite_view]); for every legacy decoder plugged in and every memo state *)
+   and missing pattern ([rewrite_view]); for every legacy decoder plugged in and every memo state; for the whole decoded
+   pose and for every decoded window *)
 Theorem C04_legacy_rewrite_v00 :
   forall c, wf00 c ->
   exists bs, write_pose (to_wpose (first_person_view c)) = Ok bs /\
     forall legacy m, MemoOK m -> fst (read_bytes legacy m bs no_args) = Ok (rewrite_view (first_person_view c)).
 Proof. exact legacy_rewrite_v00. Qed.
 Print Assumptions C04_legacy_rewrite_v00.
+Theorem C04_legacy_rewrite_v00_window :
+  forall c s0 e0, wf00 c -> (0 <= s0 <= e0)%Z -> (e0 <= frames00 c)%Z ->
+  exists bs, write_pose (to_wpose (v00_window_view c s0 e0)) = Ok bs /\
+    forall legacy m, MemoOK m -> fst (read_bytes legacy m bs no_args) = Ok (rewrite_view (v00_window_view c s0 e0)).
+Proof. exact legacy_rewrite_v00_window. Qed.
+Print Assumptions C04_legacy_rewrite_v00_window.
 Theorem C04_legacy_rewrite_v01 :
-  forall c a, wf01 c -> valid_window01 c a ->
-  (end0 (a_ef a) (frames01 c) - start0 (a_sf a) < 4294967296)%Z ->
-  exists bs, write_pose (to_wpose (v01_expected c a)) = Ok bs /\
-    forall legacy m, MemoOK m -> fst (read_bytes legacy m bs no_args) = Ok (rewrite_view (v01_expected c a)).
+  forall c s0 e0, wf01 c -> (0 <= s0 <= e0)%Z -> (e0 <= frames01 c)%Z -> (e0 - s0 < 4294967296)%Z ->
+  exists bs, write_pose (to_wpose (v01_view c (Z.to_N s0) (Z.to_N e0))) = Ok bs /\
+    forall legacy m, MemoOK m ->
+    fst (read_bytes legacy m bs no_args) = Ok (rewrite_view (v01_view c (Z.to_N s0) (Z.to_N e0))).
 Proof. exact legacy_rewrite_v01. Qed.
 Print Assumptions C04_legacy_rewrite_v01.
 (* a 16-bit fps survives the float32 round trip of the v0.2 writer: all 65536 values, by a sweep (finite domain) *)
@@ -123,26 +213,6 @@ Theorem C04_version_classes :
 Proof. exact version_examples. Qed.
 Print Assumptions C04_version_classes.
 
-(* ---------- where the current code departs from the statement (witnesses on the model; replayed on CPython by the check) ---------- *)
-(* the v0.0 decoder ignores start_frame / end_frame: frames [1,2) requested, all three come back (bytes and stream) *)
-Theorem C04_v00_window_refuted :
-  exists c a,
-  wf00 c /\ k0_frames c <> [] /\ a_sf a = Some 1%Z /\ a_ef a = Some 2%Z /\ lenN (k0_frames c) = 3 /\
-  fst (read_bytes c04_legacy None (spec00 c) a) <> Ok (v00_window_view c 1 2) /\
-  fst (fst (read_stream4 c04_legacy None (spec00 c) a)) <> Ok (v00_window_view c 1 2).
-Proof. exact v00_window_refuted. Qed.
-Print Assumptions C04_v00_window_refuted.
-(* the v0.1 decoder swallows start_time / end_time: [40 ms, 80 ms) at 25 fps is frames [1,2), all three come back *)
-Theorem C04_v01_time_window_refuted :
-  exists c a,
-  wf01 c /\ a_sf a = None /\ a_ef a = None /\
-  time_to_frame false 40 (fps_value (k1_fps c)) = Ok 1%Z /\ a_st a = Some 40%Z /\
-  time_to_frame true 80 (fps_value (k1_fps c)) = Ok 2%Z /\ a_et a = Some 80%Z /\
-  fst (read_bytes c04_legacy None (spec01 c) a) <> Ok (v01_view c 1 2) /\
-  fst (fst (read_stream4 c04_legacy None (spec01 c) a)) <> Ok (v01_view c 1 2).
-Proof. exact v01_time_window_refuted. Qed.
-Print Assumptions C04_v01_time_window_refuted.
-
 (* ---------- non-vacuity: concrete files meeting the hypotheses ---------- *)
 Theorem C04_example_v00 :
   (wf00 ex00 /\ k0_frames ex00 <> []) /\
@@ -160,12 +230,62 @@ Theorem C04_example_v00_zero_frames :
 Proof. exact (conj ex00_empty_wf ex00_empty_decodes). Qed.
 Print Assumptions C04_example_v00_zero_frames.
 Theorem C04_example_v01 :
-  wf01 ex01 /\ valid_window01 ex01 ex_win01 /\ valid_window01 ex01 no_args /\
-  b_shape (p_body (v01_expected ex01 ex_win01)) = [1; 1; 3; 2] /\
-  b_data (p_body (v01_expected ex01 ex_win01)) = [fh; fh; fh; fh; fh; fh] /\
-  b_shape (p_body (v01_expected ex01 no_args)) = [3; 1; 3; 2].
+  wf01 ex01 /\
+  window01 ex01 ex_win01 = Ok (1, 2)%Z /\ valid_window (frames01 ex01) 1 2 /\
+  window01 ex01 no_args = Ok (0, 3)%Z /\ valid_window (frames01 ex01) 0 3 /\
+  b_shape (p_body (v01_view ex01 1 2)) = [1; 1; 3; 2] /\
+  b_data (p_body (v01_view ex01 1 2)) = [fh; fh; fh; fh; fh; fh] /\
+  b_shape (p_body (v01_view ex01 0 3)) = [3; 1; 3; 2].
 Proof. exact (conj ex01_wf ex01_window). Qed.
 Print Assumptions C04_example_v01.
+(* windows are honoured (the witnesses of the former C04_v00_window_refuted / C04_v01_time_window_refuted, now positive):
+   v0.0, three frames with 2, 0 and 1 people at 30 fps - frames [1,2) by frame bounds and by [34 ms, 66 ms), frames [2,3)
+   by start_frame = 2 and end_time = 100 ms, from bytes and from a stream *)
+Theorem C04_example_v00_window :
+  window00 ex00 ex_win = Ok (1, 2)%Z /\ window00 ex00 ex_time00 = Ok (1, 2)%Z /\ window00 ex00 ex_mixed00 = Ok (2, 3)%Z /\
+  time_to_frame true 100 (fps_value (k0_fps ex00)) = Ok 3%Z /\
+  valid_window (frames00 ex00) 1 2 /\ valid_window (frames00 ex00) 2 3 /\
+  fst (read_bytes c04_legacy None (spec00 ex00) ex_win) = Ok (v00_window_view ex00 1 2) /\
+  fst (fst (read_stream4 c04_legacy None (spec00 ex00) ex_win)) = Ok (v00_window_view ex00 1 2) /\
+  fst (read_bytes c04_legacy None (spec00 ex00) ex_time00) = Ok (v00_window_view ex00 1 2) /\
+  fst (fst (read_stream4 c04_legacy None (spec00 ex00) ex_time00)) = Ok (v00_window_view ex00 1 2) /\
+  fst (fst (read_stream4 c04_legacy None (spec00 ex00) ex_mixed00)) = Ok (v00_window_view ex00 2 3) /\
+  b_shape (p_body (v00_window_view ex00 1 2)) = [1; 1; 3; 2] /\
+  b_data (p_body (v00_window_view ex00 1 2)) = [0; 0; 0; 0; 0; 0] /\
+  b_mask (p_body (v00_window_view ex00 1 2)) = [true; true; true] /\
+  b_data (p_body (v00_window_view ex00 2 3)) = [f2; f1; fh; fh; f1; f1] /\
+  b_conf (p_body (v00_window_view ex00 2 3)) = [fnan; fh; f1].
+Proof. exact ex00_window. Qed.
+Print Assumptions C04_example_v00_window.
+(* v0.1, three frames at 25 fps: [40 ms, 80 ms) is frames [1,2) *)
+Theorem C04_example_v01_time_window :
+  time_to_frame false 40 (fps_value (k1_fps ex01)) = Ok 1%Z /\ time_to_frame true 80 (fps_value (k1_fps ex01)) = Ok 2%Z /\
+  window01 ex01 ex_time01 = Ok (1, 2)%Z /\
+  fst (read_bytes c04_legacy None (spec01 ex01) ex_time01) = Ok (v01_view ex01 1 2) /\
+  fst (fst (read_stream4 c04_legacy None (spec01 ex01) ex_time01)) = Ok (v01_view ex01 1 2) /\
+  b_shape (p_body (v01_view ex01 1 2)) = [1; 1; 3; 2] /\
+  b_conf (p_body (v01_view ex01 1 2)) = [f1; f1; f1].
+Proof. exact ex01_time_window. Qed.
+Print Assumptions C04_example_v01_time_window.
+(* refused arguments on the same files: a start at the frame count by frame and by time, both bounds for one end *)
+Theorem C04_example_v00_rejected :
+  window00 ex00 ex_beyond00 = Ok (3, 3)%Z /\ window00 ex00 ex_beyond_time00 = Ok (3, 3)%Z /\ frames00 ex00 = 3%Z /\
+  fst (read_bytes c04_legacy None (spec00 ex00) ex_beyond00) = Err Value /\
+  fst (fst (read_stream4 c04_legacy None (spec00 ex00) ex_beyond_time00)) = Err Value /\
+  conflict (a_sf ex_conflict) (a_st ex_conflict) || conflict (a_ef ex_conflict) (a_et ex_conflict) = true /\
+  conflict (a_sf ex_conflict_end) (a_st ex_conflict_end) || conflict (a_ef ex_conflict_end) (a_et ex_conflict_end) = true /\
+  fst (read_bytes c04_legacy None (spec00 ex00) ex_conflict) = Err Value /\
+  fst (fst (read_stream4 c04_legacy None (spec00 ex00) ex_conflict_end)) = Err Value.
+Proof. exact ex00_rejected. Qed.
+Print Assumptions C04_example_v00_rejected.
+Theorem C04_example_v01_rejected :
+  window01 ex01 ex_beyond01 = Ok (3, 3)%Z /\ window01 ex01 ex_beyond_time01 = Ok (3, 3)%Z /\ frames01 ex01 = 3%Z /\
+  fst (read_bytes c04_legacy None (spec01 ex01) ex_beyond01) = Err Value /\
+  fst (fst (read_stream4 c04_legacy None (spec01 ex01) ex_beyond_time01)) = Err Value /\
+  fst (read_bytes c04_legacy None (spec01 ex01) ex_conflict) = Err Value /\
+  fst (fst (read_stream4 c04_legacy None (spec01 ex01) ex_conflict_end)) = Err Value.
+Proof. exact ex01_rejected. Qed.
+Print Assumptions C04_example_v01_rejected.
 (* a recording of 70 000 frames (16-bit field = 70000 mod 65536) is a valid v0.1 content *)
 Theorem C04_example_v01_long : wf01 ex01_long /\ frames01 ex01_long = 70000%Z /\ (65535 < frames01 ex01_long)%Z.
 Proof. exact ex01_long_wf. Qed.
